@@ -16,7 +16,8 @@ ops:     do <c> <act>      tick <c>      flush <c>      run <c>      adv <d>
 query:   tree      values      residue
 tokens:  chan  `*` | `n<k>` | `i<c>`;  name `<base>` or `<base>:<s>,<s>`;  list `a,b` (`-` empty)
 -/
-namespace CV.Drv
+namespace CV.Drv.CM
+open CV.Drv
 open CV.Core
 
 def parseChan (t : String) : Option Chan :=
@@ -288,4 +289,4 @@ def coreStep (cs : CoreSt) : List String → CoreSt × String
 
 def coreMachine : Machine := ⟨CoreSt, {}, coreStep⟩
 
-end CV.Drv
+end CV.Drv.CM
